@@ -319,7 +319,7 @@ static cfg_opt_t *cfg_getopt_secidx(cfg_t *cfg, const char *name,
 			}
 
 			i = strtol(title, &endptr, 0);
-			if (*endptr != '\0')
+			if (endptr == title || *endptr != '\0')
 				i = -1;
 		} while(0);
 
